@@ -98,6 +98,24 @@ def main() -> int:
             all_results.extend(res)
             metas[key] = meta
 
+    # spec-level lemma obligations (no code involved): discharged by z3 on every run
+    import z3 as _z3
+    for lname, lfn in reg.lemmas.items():
+        if not lname.startswith(pid + "/"):
+            continue
+        ex = _V.new_exec()
+        hyps, goal = lfn(ex)
+        s = _z3.Solver()
+        s.set("timeout", timeout_ms)
+        for h in hyps:
+            s.add(h)
+        s.add(_z3.Not(goal))
+        lt0 = time.time()
+        r = s.check()
+        all_results.append(OblResult(lname, "lemma:" + lname, lname.split("/", 1)[1], "", "lemma",
+                                     PROVED if r == _z3.unsat else (REFUTED if r == _z3.sat else UNKNOWN),
+                                     seconds=round(time.time() - lt0, 3), reason=str(r) if r != _z3.unknown else s.reason_unknown()).to_json())
+
     # extra (non-symbolic-execution) obligations: syntactic scans etc.
     extra_assumptions: list[str] = []
     for fn in cfg.get("extra", []):
